@@ -27,10 +27,47 @@ def groups(n, seed):
     return gs
 
 
+def _pl(o):
+    if isinstance(o, dict):
+        return {k: _pl(v) for k, v in o.items()}
+    if isinstance(o, (tuple, list)):
+        return [_pl(v) for v in o]
+    return o
+
+
 def main():
     chk = Check("C15")
     chk.mc("GF_small.cfg" if chk.thorough else "GF_q_small.cfg")
     chk.tv(groups(1200 if chk.thorough else 100, chk.seed), "C15 sweep")
+    # decision logic of the four controllers: every case of Controllers.tla on the real classes (scripted Newton method)
+    from harness import ctldriver
+    states = chk.mc_dump("Controllers.cfg", "Controllers.tla")
+    if states is not None:
+        stride = 1 if chk.thorough else 6
+        for si, st in enumerate(states):
+            if si % stride:
+                continue
+            c, exp = st["cs"], st["out"]
+            try:
+                got = ctldriver.run_case(c)
+            except Exception as e:  # noqa
+                chk.kernel_violation(("controller.exception", c["ctl"], type(e).__name__), {"case": _pl(c), "error": str(e)[:200]})
+                continue
+            chk.case(("ctl", si))
+            lamb = got["lamb_used"]
+            if not exp["accepted"] and exp["rule"] != "keep" and not (got["lamb"] > lamb) and not got["accepted"]:
+                chk.kernel_violation(("controller.reject.shrinks", c["ctl"]), {"case": _pl(c), "spec": _pl(exp), "code": got})
+            elif c["ctl"] == "Exact" and got["accepted"] and not (1 <= got["returned"] <= len(c["obs"]) and c["obs"][got["returned"] - 1]["resLe"]):
+                chk.kernel_violation(("controller.exact.solves", c["ctl"]), {"case": _pl(c), "spec": _pl(exp), "code": got})
+            elif exp["rule"] == "keep" and got["accepted"]:
+                chk.kernel_violation(("controller.deadline.accepted", c["ctl"]), {"case": _pl(c), "spec": _pl(exp), "code": got})
+            else:
+                ok = got["accepted"] == exp["accepted"] and got["returned"] == exp["returned"] and got["steps"] == exp["steps"]
+                el = ctldriver.expected_lamb(exp["rule"], lamb)
+                ok = ok and (got["lamb"] >= 1.0 if el is None else got["lamb"] == el)
+                if not ok:
+                    chk.drift["controller.decision"] = chk.drift.get("controller.decision", 0) + 1
+        chk.traces += chk.cases
     chk.assumptions += ["exact.solves compares an independently computed implicit-Euler residual (true projection) with "
                         "newton_tol*(1+1e-6) + sqrt(n)*1e-8 (the code's activity margin)"]
     chk.replay_behaviours(num=250 if not chk.thorough else 2000)
